@@ -36,10 +36,17 @@ def link(n):
 
 def system(link_types, link_parents, **extra):
   n = len(link_types)
+  g = symarr('g', (3,))
+  # every mjx.Option field: the loader copies the model's gravity into BOTH System.gravity and System.opt.gravity (the same
+  # values at load time; a later sys.replace(gravity=...) changes only the former)
+  opt = Struct('Opt', {'timestep': sym('dt'), 'gravity': g, 'wind': np.array([Rat.lift(0)] * 3, dtype=object), 'density': sym('rho'),
+                       'viscosity': sym('visc'), 'magnetic': symarr('mag', (3,)), 'iterations': 1, 'ls_iterations': 4,
+                       'tolerance': sym('tol'), 'ls_tolerance': sym('lstol'), 'impratio': 1, 'jacobian': 0, 'cone': 0,
+                       'disableflags': 0, 'enableflags': 0, 'integrator': 0, 'solver': 2})
   f = {'link': link(n), 'link_types': link_types, 'link_parents': tuple(link_parents),
-       'opt': Struct('Opt', {'timestep': sym('dt')}), 'baumgarte_erp': sym('erp'),
+       'opt': opt, 'baumgarte_erp': sym('erp'),
        'spring_mass_scale': sym('sms'), 'spring_inertia_scale': sym('sis'), 'collide_scale': sym('cs'),
-       'joint_scale_pos': sym('jsp'), 'joint_scale_ang': sym('jsa'), 'gravity': symarr('g', (3,)),
+       'joint_scale_pos': sym('jsp'), 'joint_scale_ang': sym('jsa'), 'gravity': g,
        'vel_damping': sym('vd'), 'ang_damping': sym('ad'), 'enable_fluid': False}
   f.update(extra)
   return Struct('System', f, home='brax.base')
